@@ -272,6 +272,21 @@ def specs_nonthreaded_interrupt(ctx, kinds):
     return out
 
 
+def specs_shared_window(ctx, n):
+    """2-3 ranged downloads to non-seekable streams sharing a SMALL in-memory window,
+    submitted by 2-3 submission threads: acquirers compete for freed window slots."""
+    rng = ctx.rng('specs', 'shared-window')
+    out = []
+    for i in range(n):
+        k = rng.choice([2, 2, 3])
+        cfg = dict(max_request_concurrency=rng.choice([1, 2, 3]), max_submission_concurrency=rng.choice([2, 3]),
+                   max_in_memory_download_chunks=rng.choice([1, 1, 2]), max_io_queue_size=rng.choice([1, 2, 4]),
+                   io_chunksize=rng.choice([2, 4]))
+        out.append(dict(transfers=[dict(kind='download', dst='nonseekable', size=rng.choice([8, 12, 16])) for _ in range(k)],
+                        cfg=cfg, chooser={'kind': ['random', 'pct', 'pct'][i % 3], 'seed': rng.randrange(1 << 30), 'depth': 6}))
+    return out
+
+
 def specs_mixed(ctx, n_specs, limits=(1, 2, 3), with_victims=True, tag='mix'):
     rng = ctx.rng('specs', tag)
     out = []
